@@ -86,15 +86,15 @@ Qed.
    cluster table that covers the (month, weekday) combinations of the reporting frame (the property's guard) and every
    pair of frames that differ only in the usage column: the two runs agree — every stamp predicted in both carries
    the same value, and if one run raises so does the other. *)
-Definition C05_hourly_statement (pol : dst_policy) : Prop :=
+Definition C05_hourly_statement (pol : policy) : Prop :=
   forall (W O F C Y : Type) (K : oracles W O F C Y) (t : table) (fr fr' : frame W O),
     same_weather_calendar fr fr' -> covers t fr = true ->
     agree (hourly_flow K pol t fr) (hourly_flow K pol t fr').
 
 (* with the rows of a date counted (the repair of /var/tmp/proposed-fixes/C05-1.diff) it is a theorem *)
-Theorem C05_hourly_ni_count_rows : C05_hourly_statement CountRows.
+Theorem C05_hourly_ni_count_rows : forall pol, count_rows pol = true -> C05_hourly_statement pol.
 Proof.
-  intros W O F C Y K t fr fr' H Hc. apply eq_agree. apply hourly_flow_ni_count_rows; assumption.
+  intros pol Hp W O F C Y K t fr fr' H Hc. apply eq_agree. apply hourly_flow_ni_count_rows; assumption.
 Qed.
 Print Assumptions C05_hourly_ni_count_rows.
 
@@ -109,23 +109,32 @@ Print Assumptions C05_hourly_ni_partial.
 
 (* ... which holds when both usage columns have no gap (what HourlyReportingData hands over whenever the caller's
    column holds at least one value: it interpolates the rest) — scaled, shuffled, partly blanked *)
-Theorem C05_hourly_ni_fully_observed_partial : forall (W O F C Y : Type) (K : oracles W O F C Y) t (fr fr' : frame W O),
+Theorem C05_hourly_ni_fully_observed_partial : forall (W O F C Y : Type) (K : oracles W O F C Y) pol t (fr fr' : frame W O),
   same_weather_calendar fr fr' -> covers t fr = true -> fully_observed fr = true -> fully_observed fr' = true ->
-  hourly_flow K CountObserved t fr = hourly_flow K CountObserved t fr'.
+  hourly_flow K pol t fr = hourly_flow K pol t fr'.
 Proof. intros W O F C Y K. exact (hourly_flow_ni_fully_observed K). Qed.
 Print Assumptions C05_hourly_ni_fully_observed_partial.
 
 (* ... and when usage is blanked or omitted on a frame none of whose dates has 23 or 25 rows *)
-Theorem C05_hourly_ni_blank_regular_partial : forall (W O F C Y : Type) (K : oracles W O F C Y) t (fr fr' : frame W O),
+Theorem C05_hourly_ni_blank_regular_partial : forall (W O F C Y : Type) (K : oracles W O F C Y) pol t (fr fr' : frame W O),
+  count_rows pol = false ->
   same_weather_calendar fr fr' -> covers t fr = true -> fully_observed fr = true -> blank fr' = true ->
   no_short_long fr = true ->
-  hourly_flow K CountObserved t fr = hourly_flow K CountObserved t fr'.
+  hourly_flow K pol t fr = hourly_flow K pol t fr'.
 Proof. intros W O F C Y K. exact (hourly_flow_ni_blank_regular K). Qed.
 Print Assumptions C05_hourly_ni_blank_regular_partial.
 
+(* ... and two frames without any usable usage value (all NaN vs omitted) agree for EVERY stored table, covered or not *)
+Theorem C05_hourly_ni_both_blank : forall (W O F C Y : Type) (K : oracles W O F C Y) pol t (fr fr' : frame W O),
+  same_weather_calendar fr fr' -> blank fr = true -> blank fr' = true ->
+  hourly_flow K pol t fr = hourly_flow K pol t fr'.
+Proof. intros W O F C Y K. exact (hourly_flow_ni_both_blank K). Qed.
+Print Assumptions C05_hourly_ni_both_blank.
+
 (* the repair changes nothing for frames with a complete usage column *)
-Theorem C05_hourly_repair_conservative : forall (W O F C Y : Type) (K : oracles W O F C Y) t (fr : frame W O),
-  fully_observed fr = true -> hourly_flow K CountObserved t fr = hourly_flow K CountRows t fr.
+Theorem C05_hourly_repair_conservative : forall (W O F C Y : Type) (K : oracles W O F C Y) pol pol' t (fr : frame W O),
+  loc_by_mask pol = loc_by_mask pol' ->
+  fully_observed fr = true -> hourly_flow K pol t fr = hourly_flow K pol' t fr.
 Proof. intros W O F C Y K. exact (count_rows_agrees_when_full K). Qed.
 Print Assumptions C05_hourly_repair_conservative.
 
@@ -152,15 +161,15 @@ Definition w_blank : frame unit unit := mk_frame w_days [].
 
 Theorem C05_hourly_ni_refuted : exists (t : table) (fr fr' : frame unit unit),
   same_weather_calendar fr fr' /\ covers t fr = true /\
-  (exists out, hourly_flow unit_oracles CountObserved t fr = Ok out /\ length out = 71%nat) /\
-  hourly_flow unit_oracles CountObserved t fr' = Err ERagged.
+  (exists out, hourly_flow unit_oracles count_observed t fr = Ok out /\ length out = 71%nat) /\
+  hourly_flow unit_oracles count_observed t fr' = Err ERagged.
 Proof.
   exists w_table, w_observed, w_blank. split; [vm_compute; reflexivity|]. split; [vm_compute; reflexivity|].
   split; [eexists; split; [vm_compute; reflexivity | reflexivity] | vm_compute; reflexivity].
 Qed.
 Print Assumptions C05_hourly_ni_refuted.
 
-Theorem C05_hourly_statement_as_coded_refuted : ~ C05_hourly_statement CountObserved.
+Theorem C05_hourly_statement_as_coded_refuted : ~ C05_hourly_statement count_observed.
 Proof.
   intros H. specialize (H unit unit Z unit Z unit_oracles w_table w_observed w_blank).
   assert (S : same_weather_calendar w_observed w_blank) by (vm_compute; reflexivity).
@@ -173,8 +182,8 @@ Print Assumptions C05_hourly_statement_as_coded_refuted.
    predicts the 71 rows on both sides *)
 Example C05_hourly_count_rows_witness :
   same_weather_calendar w_observed w_blank /\ covers w_table w_observed = true /\
-  hourly_flow unit_oracles CountRows w_table w_observed = hourly_flow unit_oracles CountRows w_table w_blank /\
-  (exists out, hourly_flow unit_oracles CountRows w_table w_blank = Ok out /\ length out = 71%nat) /\
+  hourly_flow unit_oracles count_rows_only w_table w_observed = hourly_flow unit_oracles count_rows_only w_table w_blank /\
+  (exists out, hourly_flow unit_oracles count_rows_only w_table w_blank = Ok out /\ length out = 71%nat) /\
   fully_observed w_observed = true /\ blank w_blank = true /\ no_short_long w_observed = false.
 Proof.
   repeat split; try (vm_compute; reflexivity). eexists; split; [vm_compute; reflexivity | reflexivity].
@@ -186,21 +195,21 @@ Example C05_hourly_blank_regular_witness :
   let fr' := mk_frame r_days [] in
   same_weather_calendar fr fr' /\ covers [((6, 2), 0); ((6, 3), 1)]%Z fr = true /\ fully_observed fr = true /\
   blank fr' = true /\ no_short_long fr = true /\
-  exists out, hourly_flow unit_oracles CountObserved [((6, 2), 0); ((6, 3), 1)]%Z fr' = Ok out /\ length out = 48%nat.
+  exists out, hourly_flow unit_oracles count_observed [((6, 2), 0); ((6, 3), 1)]%Z fr' = Ok out /\ length out = 48%nat.
 Proof.
   repeat split; try (vm_compute; reflexivity). eexists; split; [vm_compute; reflexivity | reflexivity].
 Qed.
 
 (* ---- a model object that is used for several reporting sets ---- *)
-Definition C05_hourly_reuse_statement (pol : dst_policy) (sp : state_policy) : Prop :=
+Definition C05_hourly_reuse_statement (pol : policy) (sp : state_policy) : Prop :=
   forall (W O F C Y : Type) (K : oracles W O F C Y) (t : table) (history : list (frame W O)) (fr fr' : frame W O),
     same_weather_calendar fr fr' -> covers t fr = true ->
     agree (hourly_flow_after K pol sp t history fr) (hourly_flow_after K pol sp t history fr').
 
 (* with the corrected table kept local to the call (C05-2.diff) and the rows counted: a theorem *)
-Theorem C05_hourly_reuse_ni_repaired : C05_hourly_reuse_statement CountRows KeepLocal.
+Theorem C05_hourly_reuse_ni_repaired : forall pol, count_rows pol = true -> C05_hourly_reuse_statement pol KeepLocal.
 Proof.
-  intros W O F C Y K t history fr fr' H Hc. unfold hourly_flow_after. rewrite table_after_all_keep_local.
+  intros pol Hp W O F C Y K t history fr fr' H Hc. unfold hourly_flow_after. rewrite table_after_all_keep_local.
   apply eq_agree. apply hourly_flow_ni_count_rows; assumption.
 Qed.
 Print Assumptions C05_hourly_reuse_ni_repaired.
@@ -212,6 +221,14 @@ Theorem C05_hourly_reuse_ni_partial : forall (W O F C Y : Type) (K : oracles W O
   hourly_flow_after K pol sp t history fr = hourly_flow_after K pol sp t history fr'.
 Proof. intros W O F C Y K pol sp t history fr fr' H Hc T. unfold hourly_flow_after. apply hourly_flow_ni; assumption. Qed.
 Print Assumptions C05_hourly_reuse_ni_partial.
+
+(* what does hold for the code as it is when an object is used again: a second reporting set on the SAME calendar
+   (the paired runs of the check on one object) is predicted as by the freshly fitted model *)
+Theorem C05_hourly_reuse_same_calendar : forall (W O F C Y : Type) (K : oracles W O F C Y) pol sp t (fr fr' : frame W O),
+  covers t fr = true -> same_weather_calendar fr fr' ->
+  hourly_flow_after K pol sp t [fr] fr' = hourly_flow K pol t fr'.
+Proof. intros W O F C Y K. exact (reuse_same_calendar K). Qed.
+Print Assumptions C05_hourly_reuse_same_calendar.
 
 (* refutation for the code as it is (finding C05-K2): the fitted table knows February and May; after one prediction for
    a February day the model only knows February, and a May day then raises when usage is supplied (no known load
@@ -225,14 +242,14 @@ Proof.
   specialize (H unit unit Z unit Z unit_oracles u_table [u_feb] (mk_frame u_may_days [(true, [])]) (mk_frame u_may_days [])).
   assert (S : same_weather_calendar (mk_frame u_may_days [(true, [])]) (mk_frame u_may_days [])) by (vm_compute; reflexivity).
   assert (Cv : covers u_table (mk_frame u_may_days [(true, [])]) = true) by (vm_compute; reflexivity).
-  specialize (H S Cv). destruct pol; vm_compute in H; exact H.
+  specialize (H S Cv). destruct pol as [[|] [|]]; vm_compute in H; exact H.
 Qed.
 Print Assumptions C05_hourly_reuse_refuted.
 
 Example C05_hourly_reuse_witness :
-  hourly_flow_after unit_oracles CountRows StoreBack u_table [u_feb] (mk_frame u_may_days [(true, [])]) = Err EValue /\
-  (exists out, hourly_flow_after unit_oracles CountRows StoreBack u_table [u_feb] (mk_frame u_may_days []) = Ok out /\ length out = 24%nat) /\
-  (exists out, hourly_flow_after unit_oracles CountRows KeepLocal u_table [u_feb] (mk_frame u_may_days [(true, [])]) = Ok out /\ length out = 24%nat).
+  hourly_flow_after unit_oracles count_rows_only StoreBack u_table [u_feb] (mk_frame u_may_days [(true, [])]) = Err EValue /\
+  (exists out, hourly_flow_after unit_oracles count_rows_only StoreBack u_table [u_feb] (mk_frame u_may_days []) = Ok out /\ length out = 24%nat) /\
+  (exists out, hourly_flow_after unit_oracles count_rows_only KeepLocal u_table [u_feb] (mk_frame u_may_days [(true, [])]) = Ok out /\ length out = 24%nat).
 Proof.
   split; [vm_compute; reflexivity|].
   split; eexists; (split; [vm_compute; reflexivity | reflexivity]).
